@@ -12,8 +12,10 @@ EXTENDS PollingScanner, PnScanner, TLC, Json
 
 CONSTANTS V,        \* abstract value bytes
           ExtraCns, \* non-contributing controller numbers fed as well
-          TO,       \* timeout: a natural or Inf (-1)
+          TOc,      \* timeout: a natural, 999 stands for Inf (cfg files cannot say -1)
           CAP       \* ages saturate here (>= TO)
+
+TO == IF TOc = 999 THEN Inf ELSE TOc
 
 VARIABLES st, g, now, ev
 vars == <<st, g, now, ev>>
